@@ -8,6 +8,9 @@
     large-magnitude integer lattices for every element type whose arithmetic is exact (mc/c12_exact.py),
 (b'') the sweeps of (a) and (b) repeated with the unit of length multiplied by 2^-30 and 2^30 (subchecks C12.scale.*,
     input classes suffixed ':unit=2^k').
+(b''') documented defaults and calling forms (mc/c12_defaults.py): every optional argument omitted (one at a time, all
+    together) == the documented default (pinned table, compared with inspect.signature too) passed explicitly; every
+    argument by keyword == positionally in the documented order (subchecks C12.defaults.*, C12.forms.keyword_equals_positional).
 Around EVERY call of real code (all parts) the argument arrays' byte images and numpy.geterr() are
 compared before/after, whether the call returns or raises (mc/c12_guard.py).
 """
@@ -20,6 +23,7 @@ from mc.explore import bfs
 from mc import exact as X
 from mc.c12_guard import Guard, INITS, blame_run, lib_dir_of, _short
 from mc import c12_exact as XE
+from mc import c12_defaults as XD
 
 ID = "C12"
 TECHNIQUE = "bounded-exhaustive lattice sweeps vs exact oracles + explicit-state BFS over call histories x numpy error states"
@@ -33,7 +37,9 @@ RULE = ("boxes: every (min,max) corner pair of the lattice alphabet (inverted, f
         "the vectors {b-1,b,b+1}^3 + 9 mixed-sign vectors for the stated magnitudes b x {int64 array, Vec of int64, list "
         "of Python ints, object array of ints / Fractions / thirds, float64}; unit of length: the lattice sweeps "
         "repeated with all lengths x 2^-30 and x 2^30; a case is one input tuple / one "
-        "distinct (geterr, byte images, aliasing pattern) state; non-trivial = the call reached the library")
+        "distinct (geterr, byte images, aliasing pattern) state; non-trivial = the call reached the library; defaults / "
+        "calling forms: every entry point of the pinned table x its small input family x {all explicit positional, all by "
+        "keyword, each optional omitted, all optionals omitted, each non-default alternative positional and by keyword}")
 ASSUMPTIONS = [
     "coordinates restricted to the small integer / half-integer alphabets given in the bounds (float arithmetic exact on them)",
     "irrational results (l2 norms, angles, rotations, circumcentres, roots) compared with tolerance 1e-12 (1e-9 where acos/tan is involved)",
@@ -51,6 +57,10 @@ ASSUMPTIONS = [
     "lattice, tolerances are relative to the unit; float arrays only; directions (rotation axes, plane / reference normals) "
     "are not scaled; the known signed-angle finding (normal orthogonal to V1xV2) is not judged again per unit",
     "axis_rot_from_z and face_basis, triangle areas, Vec constructors are checked against their docstrings only",
+    "documented defaults = the table PINNED of mc/c12_defaults.py, copied by hand from the signatures of the unchanged tree "
+    "(which agree with the docstrings); 'omitted == documented default passed explicitly' compares two runs of the real code "
+    "exactly (the explicit forms are judged against the oracles by the other sweeps); match_rotation (outside the statement) "
+    "only takes part in the defaults / calling-form clauses",
 ]
 BOUNDS = {
     "quick": "boxes: d=1 corners {-2..2} x points {-2.5..2.5 step .5} (float+int), d=2 corners {-1,0,1,2} x points {-1.5..2.5 step .5} "
@@ -65,7 +75,11 @@ BOUNDS = {
              "range + int64 for the overflow filter); dot/cross/norm/distance/det_2x2 on all pairs of the 36 vectors for b=0, 2^20, "
              "2^30 and of the 17 for 2^31, 2^53, 2^70; face_basis forms with first point in 3 centres x {-1,0,1}^3 pairs; unit of "
              "length 2^-30 and 2^30: all primitive sweeps above (rot3d with 4 second angles) and boxes d=1 {-2..2}, d=2 "
-             "{-1,0,1,2} points / {-1,0,1} pairs, of_points d<=2, pad d=1",
+             "{-1,0,1,2} points / {-1,0,1} pairs, of_points d<=2, pad d=1; defaults / calling forms: 43 signatures; which of "
+             "norm / Vec.norm / normalized / normalize on {-2..2}^3 (float+int), distance on all pairs of {-1,0,1}^3, AABB.distance on "
+             "all non-inverted boxes d=1 {-2..2}, d=2 {-1,0,1}, d=3 {0,1} x half-lattice points, unit_cube d<=4, of_points / of_mesh "
+             "on <=2-point clouds (3 forms), roots n<=6 x 14 units x 3 moduli, match_rotation on 8^2 rotation pairs; keyword == "
+             "positional for 30 entry points on 25..343 inputs each",
     "thorough": "quick plus: boxes d=2 corners {-2..2} x points {-2.5..2.5}, d=3 corners {-1,0,1} and {-1,0,1,2} x their half-lattices; all ordered "
                 "pairs of d=2 {-2..2} and d=3 {-1,0,1}; of_points d=3 on {-2..2} (<=2 points) and {-1,0,1,2} (<=3 points); det_3x3 on all triples "
                 "of {-2..2}^3; angle/cotan/circumcentre triples and signed-angle pairs with outer vectors in {-2..2}^3; 3-D rotations with all 13 "
@@ -136,6 +150,9 @@ def tasks(tier):
     chunks(dict(kind="seg2d", alpha=L2), 5)
     # ---- (b') calling forms and exact element types on large-magnitude lattices (mc/c12_exact.py)
     T.extend(XE.tasks(tier))
+    # ---- (b''') documented defaults and calling forms (mc/c12_defaults.py): optional arguments omitted one at a time and all
+    # together == the pinned documented default passed explicitly; keyword == positional; the pinned table vs inspect.signature
+    T.extend(XD.tasks(tier))
     # ---- (b'') unit-of-length deviation: the same sweeps with every length multiplied by 2^-30 / 2^30 (exact in
     # binary64), expectations scaled by the matching power; float arrays only (integer products would leave int64)
     for ue in UNIT_EXPS:
@@ -1476,6 +1493,7 @@ RUNNERS = {
     "seg2d": run_seg2d, "bfs": run_bfs,
 }
 RUNNERS.update(XE.RUNNERS)
+RUNNERS.update(XD.RUNNERS)
 
 
 def run_task(task, rep: Report):
@@ -1505,7 +1523,7 @@ EXPECTED_EVALS = [
     "C12.prim.rotate_around_axis.isometry", "C12.prim.rotate_around_axis.fixes_axis", "C12.prim.principal_angle",
     "C12.prim.angle_diff", "C12.prim.roots", "C12.prim.project_to_plane", "C12.prim.intersect_2lines2D",
     "C12.prim.distance_to_segment2D", "C12.prim.axis_rot_from_z",
-] + XE.EXPECTED_EVALS + [
+] + XE.EXPECTED_EVALS + XD.EXPECTED_EVALS + [
     # the unit-of-length deviation reached every family of clauses
     "C12.scale.box.distance", "C12.scale.box.project.realises_distance", "C12.scale.box.do_intersect", "C12.scale.box.of_points.tight",
     "C12.scale.box.pad.documented_effect", "C12.scale.prim.norm", "C12.scale.prim.cross", "C12.scale.prim.det_2x2",
@@ -1540,4 +1558,5 @@ def finish(tier, rep: Report):
         if f"unit:2^{ue}" not in rep.flags:
             fails.append(f"unit-of-length deviation 2^{ue} not run")
     fails += XE.finish(tier, rep)
+    fails += XD.finish(tier, rep)
     return fails
